@@ -316,7 +316,6 @@ impl<'data> ProguardCache<'data> {
         // At this point, we know how many members/members-by-params each class has because we kept count,
         // but we don't know where each class's entries start. We'll rectify that below.
 
-        let mut writer = watto::Writer::new(writer);
         let string_bytes = string_table.into_bytes();
 
         let num_members = classes.values().map(|c| c.class.members_len).sum::<u32>();
@@ -334,8 +333,12 @@ impl<'data> ProguardCache<'data> {
             string_bytes: string_bytes.len() as u32,
         };
 
+        // The number of bytes written so far, needed to align each section.
+        let mut pos = 0;
+
         writer.write_all(header.as_bytes())?;
-        writer.align_to(8)?;
+        pos += header.as_bytes().len();
+        write_padding(writer, &mut pos)?;
 
         let mut members = Vec::new();
         let mut members_by_params = Vec::new();
@@ -351,14 +354,17 @@ impl<'data> ProguardCache<'data> {
                     .flat_map(|m| m.into_iter()),
             );
             writer.write_all(c.class.as_bytes())?;
+            pos += c.class.as_bytes().len();
         }
-        writer.align_to(8)?;
+        write_padding(writer, &mut pos)?;
 
         writer.write_all(members.as_bytes())?;
-        writer.align_to(8)?;
+        pos += members.as_bytes().len();
+        write_padding(writer, &mut pos)?;
 
         writer.write_all(members_by_params.as_bytes())?;
-        writer.align_to(8)?;
+        pos += members_by_params.as_bytes().len();
+        write_padding(writer, &mut pos)?;
 
         writer.write_all(&string_bytes)?;
 
@@ -409,6 +415,18 @@ impl<'data> ProguardCache<'data> {
     pub(crate) fn read_string(&self, offset: u32) -> Result<&'data str, watto::ReadStringError> {
         StringTable::read(self.string_bytes, offset as usize)
     }
+}
+
+/// Pads the output to the next multiple of 8 bytes with zeroes.
+///
+/// `pos` is the number of bytes written so far. Unlike a single `write` call,
+/// this makes sure that all padding bytes arrive at the writer.
+fn write_padding<W: Write>(writer: &mut W, pos: &mut usize) -> std::io::Result<()> {
+    const PADDING: [u8; 8] = [0; 8];
+    let len = (8 - *pos % 8) % 8;
+    writer.write_all(&PADDING[..len])?;
+    *pos += len;
+    Ok(())
 }
 
 /// A class that is currently being constructed in the course of writing a [`ProguardCache`].
